@@ -288,7 +288,9 @@ fn run_trial_spawned(script: &Script, rng: &mut Rng, jitter: bool, free: bool) -
     let mut mh = Vec::new();
     for ops in &script.muts {
         let (sh, go, ops) = (Arc::clone(&sh), Arc::clone(&go), ops.clone());
-        let spins: Vec<u64> = ops.iter().map(|_| if jitter { rng.below(300) } else { 0 }).collect();
+        // a third of the trials: no jitter at all, so that the mutators' calls cross each other
+        let tight = jitter && rng.below(3) == 0;
+        let spins: Vec<u64> = ops.iter().map(|_| if jitter && !tight { rng.below(300) } else { 0 }).collect();
         mh.push(std::thread::spawn(move || {
             go.wait();
             for (i, (inc, b, m)) in ops.iter().enumerate() {
